@@ -58,6 +58,8 @@ def cases(tier, seed):
                     if kind in ('real', 'log') and patterns.nelems(ra) + patterns.nelems(rb) > (6 if kind == 'real' else 3):
                         continue
                     da, db = rng.choice([('zero', 'zero'), ('zero', 'zero'), ('one', 'zero'), ('zero', 'top'), ('top', 'one')])
+                    if kind in ('real', 'log') and n == 3 and da != 'zero':
+                        continue      # a dense symbolic 3x3 real system (non-zero default of A): non-linear arithmetic beyond the per-case budget
                     cs.append({'entry': 'pt_solve', 'semiring': kind, 'types': patterns.depict_type(t),
                                'operands': [{'recipe': ra, 'default': da}, {'recipe': rb, 'default': db}]})
         # multi_solve / multi_mv over all block structures on two keys
